@@ -278,11 +278,12 @@ def evaluate (leaves : List Leaf) (ps : List P) : (fuel : Nat) → Formula → E
     | .const => .error .parse                     -- 'unsupported Expr=Constant'
     | .other => .error .parse                     -- 'unsupported Expr=…'
 
-/-- **The exceptions that `update_status_formula` turns into a major failure.**  Only
-    `ApplicationStatusParseError`; every other exception (`RecursionError`, an unmapped `re.compile` exception) escapes
+/-- **The exceptions that `update_status_formula` turns into a major failure.**  `ApplicationStatusParseError` and
+    `RecursionError` (the evaluation is recursive); every other exception (an unmapped `re.compile` exception) escapes
     `ApplicationStatus.update`. -/
 def handled : Err → Bool
   | .parse => true
+  | .recursion => true
   | _ => false
 
 /-- `update_status_formula`, first half: the major failure (`Except.error`: the exception escapes) -/
@@ -329,7 +330,8 @@ inductive Loaded where
 def load : Option Top → Except Err Loaded
   | none => .ok .noTree
   | some .syntaxError => .ok .noTree           -- `ApplicationStatusParseError('AST parse failure')`, logged by `load_status`
-  | some (.parserExc c) => .error (.parser c)  -- only `SyntaxError` is caught by the setter
+  -- the setter catches `SyntaxError`, `ValueError`, `RecursionError` and `MemoryError` (codes of `excName`): 'AST parse failure'
+  | some (.parserExc c) => if c = 2 ∨ c = 3 ∨ c = 4 then .ok .noTree else .error (.parser c)
   | some .multi => .ok .noTree                 -- `ApplicationStatusParseError('unsupported AST expression')`
   | some .stmtNoValue => .ok .noTree           -- the same: `type(tree.body[0]) is not ast.Expr`
   | some .stmtValueNone => .ok .noTree
